@@ -154,6 +154,7 @@ var c13marshal = Register("C13", "C13.marshal", func(a c13MarshalArgs) *Violatio
 
 type c13UnmarshalArgs struct {
 	Data string
+	Mode uint8 `json:",omitempty"` // DefaultRoundingMode during the call (index into ref.Modes)
 }
 
 var c13unmarshal = Register("C13", "C13.unmarshal", func(a c13UnmarshalArgs) *Violation {
@@ -162,6 +163,10 @@ var c13unmarshal = Register("C13", "C13.unmarshal", func(a c13UnmarshalArgs) *Vi
 	data := []byte(a.Data)
 	sentinel := ref.FromBits(0x3040000000000000, 424242)
 	u := sentinel
+	mode := ref.Modes[int(a.Mode)%6]
+	oldMode := d128.DefaultRoundingMode
+	d128.DefaultRoundingMode = mode
+	defer func() { d128.DefaultRoundingMode = oldMode }()
 	err := u.UnmarshalJSON(data)
 	show := abbr(strconv.Quote(a.Data))
 	if string(data) != a.Data {
@@ -179,7 +184,7 @@ var c13unmarshal = Register("C13", "C13.unmarshal", func(a c13UnmarshalArgs) *Vi
 		// the expected value is also computed independently of the package's parser, so that a
 		// defect shared by Parse and UnmarshalJSON (they use the same routine) is still visible
 		if lit := classifyLiteral(a.Data); lit.Class == litValid && lit.Kind == ref.Finite {
-			want, overflow, alt := lit.expected(d128.ToNearestEven)
+			want, overflow, alt := lit.expected(mode)
 			if overflow {
 				if err == nil {
 					return violf("UnmarshalJSON(%s) returned no error although the number is beyond the largest Decimal (stored %s)", show, ref.Decode(u))
@@ -348,6 +353,10 @@ func TestC13_Unmarshal(t *testing.T) {
 		default:
 			s = genJSONNumber(t)
 		}
-		c13unmarshal.Run(t, c13UnmarshalArgs{Data: s})
+		a := c13UnmarshalArgs{Data: s}
+		if ir(t, 0, 2, "otherMode") == 0 {
+			a.Mode = uint8(ir(t, 1, 5, "mode"))
+		}
+		c13unmarshal.Run(t, a)
 	})
 }
